@@ -1,28 +1,39 @@
 #!/bin/bash
 # tools/seeded.sh <seeded-dir> [check-id ...]
-# Applies /verif/seeded/<name>/patch.diff to /repo, runs the repository's own suite (must still pass),
-# runs the named checks' quick commands (default: the property named in meta.json), and reverts /repo.
-# Prints one line per check: CAUGHT / MISSED, and the violation signatures.
+# Runs the repository's suite, the seed's demonstration and the named checks' quick commands (default: the
+# property named in meta.json) against the seeded change. By default this happens on private copies: a scratch
+# worktree of /repo with the patch applied and a copy of /verif's machinery pointed at it (VERIF_REPO), so that
+# /repo itself and a sweep that may be running on it are not disturbed. With INPLACE=1 the patch is applied to
+# /repo itself (git -C /repo apply) and reverted afterwards.
 set -u
 d="$1"; shift
 export GOFLAGS=-mod=mod GOPROXY=off GOSUMDB=off GOTOOLCHAIN=local
 [ -f "$d/patch.diff" ] || { echo "no patch.diff in $d"; exit 2; }
-if [ -n "$(git -C /repo status --porcelain)" ]; then echo "/repo is not clean"; exit 2; fi
 ids="$*"
 if [ -z "$ids" ]; then ids=$(python3 -c "import json;print(json.load(open('$d/meta.json'))['property'])"); fi
-git -C /repo apply "$d/patch.diff" || { echo "patch does not apply"; exit 2; }
-ev=$(mktemp -d); cp -a /verif/evidence/. "$ev"/
-trap 'git -C /repo checkout -- . ; rm -f /repo/zz_seeded_demo_test.go; cp -a "$ev"/. /verif/evidence/; rm -rf "$ev"' EXIT
-suite=$(cd /repo && go test -vet=off -count=1 ./... 2>&1 | tail -3)
+if [ "${INPLACE:-0}" = 1 ]; then
+  if [ -n "$(git -C /repo status --porcelain)" ]; then echo "/repo is not clean"; exit 2; fi
+  git -C /repo apply "$d/patch.diff" || { echo "patch does not apply"; exit 2; }
+  ev=$(mktemp -d); cp -a /verif/evidence/. "$ev"/
+  trap 'git -C /repo checkout -- . ; rm -f /repo/zz_seeded_demo_test.go; cp -a "$ev"/. /verif/evidence/; rm -rf "$ev"; rm -f /verif/replays/*.json' EXIT
+  R=/repo; V=/verif
+else
+  W=$(mktemp -d /tmp/seedrun.XXXXXX)
+  git -C /repo worktree add -q --detach "$W/repo" HEAD || exit 2
+  trap 'git -C /repo worktree remove --force "$W/repo" 2>/dev/null; rm -rf "$W"' EXIT
+  git -C "$W/repo" apply "$d/patch.diff" || { echo "patch does not apply"; exit 2; }
+  mkdir -p "$W/verif"; cp -a /verif/mc /verif/run.sh /verif/known_findings.txt "$W/verif/"
+  R="$W/repo"; V="$W/verif"; export VERIF_REPO="$R"
+fi
+suite=$(cd "$R" && go test -vet=off -count=1 ./... 2>&1 | tail -3)
 if echo "$suite" | grep -q "^ok"; then echo "suite: passes with the change"; else echo "suite: FAILS with the change: $suite"; fi
 if [ -f "$d/demo_test.go.txt" ]; then
-  cp "$d/demo_test.go.txt" /repo/zz_seeded_demo_test.go
-  if (cd /repo && go test -vet=off -count=1 -run TestSeeded . >/dev/null 2>&1); then echo "demo: PASSES with the change (unexpected)"; else echo "demo: fails with the change (expected)"; fi
-  rm -f /repo/zz_seeded_demo_test.go
+  cp "$d/demo_test.go.txt" "$R/zz_seeded_demo_test.go"
+  if (cd "$R" && go test -vet=off -count=1 -run TestSeeded . >/dev/null 2>&1); then echo "demo: PASSES with the change (unexpected)"; else echo "demo: fails with the change (expected)"; fi
+  rm -f "$R/zz_seeded_demo_test.go"
 fi
 for id in $ids; do
-  out=$(/verif/run.sh $id ${TIER:-quick} 2>&1); rc=$?
+  out=$("$V/run.sh" $id ${TIER:-quick} 2>&1); rc=$?
   sigs=$(echo "$out" | grep -E "^  signature=" | sed 's/^  signature=//; s/ kind=.*//' | head -5 | tr '\n' ';')
   if [ $rc -eq 1 ]; then echo "$id: CAUGHT rc=1 $sigs"; elif [ $rc -eq 0 ]; then echo "$id: MISSED rc=0"; else echo "$id: rc=$rc $(echo "$out" | tail -3)"; fi
 done
-rm -f /verif/replays/*.json
